@@ -70,6 +70,7 @@ type EntryOpts struct {
 	Race     bool
 	MaxGors  int
 	Params   map[string]int64 // tier-dependent harness parameters (vParam)
+	NoNumStr bool             // compare decimal strings digit by digit (no numeric shortcut)
 }
 
 type Violation struct {
@@ -142,6 +143,7 @@ type Engine struct {
 	timeLocs  map[string]*Value
 	pathCover map[string]bool
 	onceDone  map[*Value]bool
+	noNumStr  bool
 	ptrIDs    map[*Value]uint64
 	initSet   map[*ssa.Package]bool
 	rtypePtr  types.Type
